@@ -69,3 +69,29 @@ Definition reviewed_sanitizer : list string :=
 Theorem C19_sanitizer_is_the_modelled_one : sanitizer_impl = reviewed_sanitizer.
 Proof. vm_compute. reflexivity. Qed.
 Print Assumptions C19_sanitizer_is_the_modelled_one.
+
+
+(* ---- objects without a literal are captured as globals of the generated module (compile_closure_with_globals_capturing,
+   Model/Capture.v): in the tree as repaired the global names are pairwise different, none is a name of the namespace or
+   the name of the closure, every captured name gets exactly one; the loop as it was is refuted (x and g_x in one
+   namespace were both captured as g_g_x).  The loop's text is regenerated from /repo on every run, the model is compared
+   with the function itself on random namespaces ---- *)
+From AV Require Model.Capture Proofs.CaptureProofs.
+Theorem C19_captured_globals_are_fresh_and_distinct : forall ns closure captured,
+  let r := Capture.capture true ns closure captured in
+  NoDup (map snd r) /\ (forall g, In g (map snd r) -> ~ In g ns /\ g <> closure).
+Proof. exact CaptureProofs.captured_globals_are_fresh_and_distinct. Qed.
+Print Assumptions C19_captured_globals_are_fresh_and_distinct.
+
+Theorem C19_every_captured_name_is_bound_once : forall fixed ns closure captured,
+  map fst (Capture.capture fixed ns closure captured) = captured.
+Proof. exact CaptureProofs.every_captured_name_is_bound_once. Qed.
+Print Assumptions C19_every_captured_name_is_bound_once.
+
+Theorem C19_capture_as_coded_refuted : exists ns closure captured, ~ NoDup (map snd (Capture.capture false ns closure captured)).
+Proof. exact CaptureProofs.capture_as_coded_refuted. Qed.
+Print Assumptions C19_capture_as_coded_refuted.
+
+Theorem C19_capture_loop_code_is_the_modelled_one : GenNames.capture_loop_code = CaptureProofs.reviewed_capture_loop_code.
+Proof. exact CaptureProofs.capture_loop_code_is_the_modelled_one. Qed.
+Print Assumptions C19_capture_loop_code_is_the_modelled_one.
